@@ -684,6 +684,16 @@ func (b *BaseStore) Sync(ctx context.Context, heads []ipfslog.Entry) error {
 			continue
 		}
 
+		// the access check is about the identity the head names; whether that
+		// identity signed it is only verified by Join, after the head and its
+		// ancestors have been fetched. Anybody can copy a writer's identity
+		// block: without this check such a head makes the replicator fetch
+		// whatever it points to, on behalf of somebody without write access
+		if err := h.Verify(identityProvider, b.IO()); err != nil {
+			b.Logger().Debug("warning: Given input entry is not signed by the identity it names and was discarded", zap.Error(err))
+			continue
+		}
+
 		hash, err := b.IO().Write(ctx, b.IPFS(), h, nil)
 		if err != nil {
 			span.AddEvent("store-sync-cant-write", trace.WithAttributes(otkv.String("error", err.Error())))
